@@ -946,8 +946,11 @@ func (r *Raft) AppendEntries(request *AppendEntriesRequest, response *AppendEntr
 		r.logger.Fatalf("failed to append entries to log: %v", err)
 	}
 
-	if request.LeaderCommit > r.commitIndex {
-		r.commitIndex = numeric.Min(request.LeaderCommit, r.log.LastIndex())
+	// Only entries up to the last one verified to match the leader's log may be
+	// committed - the log may extend past them with entries from an older leader.
+	lastVerified := request.PrevLogIndex + uint64(len(request.Entries))
+	if commitIndex := numeric.Min(request.LeaderCommit, lastVerified); commitIndex > r.commitIndex {
+		r.commitIndex = commitIndex
 		r.applyCond.Broadcast()
 	}
 
